@@ -206,6 +206,12 @@ func credentialIsSecure(credential string) error {
 		return fmt.Errorf("cannot parse credential: jws.ParseString: %w", err)
 	}
 
+	// A credential must carry exactly one signature (the compact serialization always does): with several
+	// signatures, verification would succeed as soon as any one of them is made by an authorized key.
+	if len(message.Signatures()) != 1 {
+		return errors.New("credential must contain exactly one signature")
+	}
+
 	// Inspect the signatures in the message
 	secureSignatureCount := 0
 	for _, signature := range message.Signatures() {
